@@ -507,6 +507,18 @@ int main(int argc, char **argv)
 				usleep(2000);
 				stop_reader = true;
 				rd.join();
+				{
+					// pipelined model: the writer thread stores and advances the counter after the socket write; wait until the
+					// counter has passed the last MsgSeqNum seen on the wire (max 3 s) so that the state logged below is settled
+					unsigned long lastseq(0);
+					for (std::string::size_type p(0); (p = got.find("\00134=", p)) != std::string::npos; ++p)
+					{
+						const unsigned long v(strtoul(got.c_str() + p + 4, 0, 10));
+						if (v > lastseq) lastseq = v;
+					}
+					for (int spin(0); spin < 3000 && lastseq && w.ses->ns() <= lastseq; ++spin)
+						usleep(1000);
+				}
 				g_prefetched = got;
 				emit(w, "SendPar", pre, "\"threads\":" + std::to_string(nt) + ",\"per\":" + std::to_string(per) + ",\"batch\":" + std::to_string(bs), true);
 			}
